@@ -117,11 +117,17 @@ Fixpoint tuples (ds : list dir8) : list (list Z) :=
   | d :: r => flat_map (fun t => map (fun c => c :: t) (if is_used d then NB else [0])) (tuples r)
   end.
 
-Definition sweep_ok : bool :=
-  forallb (fun t => cell_ok DASH (env_of t) && cell_ok BAR (env_of t) && cell_ok PLUS (env_of t)) (tuples dir8_all).
+Definition triple_ok (t : list Z) : bool := cell_ok DASH (env_of t) && cell_ok BAR (env_of t) && cell_ok PLUS (env_of t).
 
-Lemma sweep : sweep_ok = true.
+Lemma sweep : forallb triple_ok (tuples dir8_all) = true.
 Proof. vm_compute. reflexivity. Qed.
+
+Lemma sweep_forall t : In t (tuples dir8_all) ->
+  cell_ok DASH (env_of t) = true /\ cell_ok BAR (env_of t) = true /\ cell_ok PLUS (env_of t) = true.
+Proof.
+  intros H. pose proof (proj1 (forallb_forall triple_ok (tuples dir8_all)) sweep t H) as S.
+  unfold triple_ok in S. apply andb_true_iff in S. destruct S as [S S3]. apply andb_true_iff in S. destruct S as [S1 S2]. auto.
+Qed.
 
 Lemma tuples_complete (nb : dir8 -> Z) : (forall d, In (nb d) NB) -> forall ds, In (map (mask nb) ds) (tuples ds).
 Proof.
@@ -151,8 +157,7 @@ Qed.
 Theorem table_matches_spec (nb : dir8 -> Z) :
   (forall d, In (nb d) NB) -> cell_ok DASH nb = true /\ cell_ok BAR nb = true /\ cell_ok PLUS nb = true.
 Proof.
-  intros H. pose proof (tuples_complete nb H dir8_all) as Hin.
-  pose proof sweep as S. unfold sweep_ok in S. rewrite forallb_forall in S. specialize (S _ Hin).
+  intros H. pose proof (sweep_forall _ (tuples_complete nb H dir8_all)) as S.
   assert (E : forall ch, cell_ok ch (env_of (map (mask nb) dir8_all)) = cell_ok ch (mask nb)).
   { intros ch. unfold cell_ok.
     assert (Ex : forall d, env_of (map (mask nb) dir8_all) d = mask nb d) by (intros d; destruct d; reflexivity).
@@ -161,6 +166,5 @@ Proof.
     rewrite Ef. destruct (all_atoms _); [|reflexivity].
     assert (Es : spec_atoms ch (env_of (map (mask nb) dir8_all)) = spec_atoms ch (mask nb)) by (unfold spec_atoms; rewrite !Ex; reflexivity).
     rewrite Es. reflexivity. }
-  rewrite !E in S. rewrite (cell_ok_mask DASH), (cell_ok_mask BAR), (cell_ok_mask PLUS) in S; [| | |]; try (cbn [In]; tauto).
-  apply andb_true_iff in S. destruct S as [S S3]. apply andb_true_iff in S. destruct S as [S1 S2]. auto.
+  rewrite !E in S. rewrite (cell_ok_mask DASH), (cell_ok_mask BAR), (cell_ok_mask PLUS) in S; [exact S| | |]; cbn [In]; tauto.
 Qed.
